@@ -117,14 +117,18 @@ def run(ctx):
 
     # ---------------------------------------------------------------- R13.3 fold over all weak orderings
     fp = mdl.func('path.Path.radialrange')
-    vals = [Fr(0), Fr(1), Fr(2)]
-    cases = list(itertools.product(vals, repeat=3))
+    NSEG = 4 if ctx.tier == 'thorough' else 3
+    vals = [Fr(0), Fr(1), Fr(2)] + ([Fr(3)] if NSEG == 4 else [])
+    cases = list(itertools.product(vals, repeat=NSEG))
+    if NSEG == 4:
+        # every weak ordering of 4 values is realised by a tuple over {0,1,2,3}; drop tuples that skip a rank (same ordering as a smaller one)
+        cases = [c for c in cases if set(c) == set(range(len(set(c))))]
     bad = []
     und = None
     for mins in cases:
         for maxs in (tuple(m + 5 for m in mins), tuple(7 - m for m in mins)):
             def th3(it, mins=mins, maxs=maxs):
-                segs = [it.construct('path.Line', Rat.csym('A%d' % k), Rat.csym('B%d' % k)) for k in range(3)]
+                segs = [it.construct('path.Line', Rat.csym('A%d' % k), Rat.csym('B%d' % k)) for k in range(NSEG)]
                 table = {id(s): ((mins[k], Fr(k + 1, 10)), (maxs[k], Fr(k + 1, 20))) for k, s in enumerate(segs)}
                 it.call_hooks['path.Line.radialrange'] = lambda it2, a, kw: table[id(a[0])]
                 p = it.construct('path.Path', *segs)
@@ -139,8 +143,8 @@ def run(ctx):
                     bad.append('raises %s for minima %s' % (pth.raised.exc_name, mins))
                     continue
                 gmin, gmax = pth.value
-                km = [k for k in range(3) if mins[k] == min(mins)]
-                kx = [k for k in range(3) if maxs[k] == max(maxs)]
+                km = [k for k in range(NSEG) if mins[k] == min(mins)]
+                kx = [k for k in range(NSEG) if maxs[k] == max(maxs)]
                 if not (len(gmin) == 3 and gmin[2] in km and concrete_number_eq(gmin[0], min(mins)) and concrete_number_eq(gmin[1], Fr(gmin[2] + 1, 10))):
                     bad.append('minima %s -> %r' % (tuple(map(str, mins)), gmin))
                 if not (len(gmax) == 3 and gmax[2] in kx and concrete_number_eq(gmax[0], max(maxs)) and concrete_number_eq(gmax[1], Fr(gmax[2] + 1, 20))):
@@ -150,8 +154,8 @@ def run(ctx):
     if und:
         ctx.undecided('R13.3', fp.qualname, 'fold over orderings', und, where=where(fp))
     else:
-        ctx.record('R13.3', fp.qualname, 'arg-min/arg-max fold on all %d orderings of 3 segments (with ties and zeros)' % (2 * len(cases)),
-                   not bad, detail='; '.join(bad[:3]), where=where(fp), sample={'orderings': 2 * len(cases)})
+        ctx.record('R13.3', fp.qualname, 'arg-min/arg-max fold on all %d orderings of %d segments (with ties and zeros)' % (2 * len(cases), NSEG),
+                   not bad, detail='; '.join(bad[:3]), where=where(fp), sample={'orderings': 2 * len(cases), 'segments': NSEG})
     ctx.exhaustive = True
 
     # ---------------------------------------------------------------- R13.4
